@@ -84,6 +84,42 @@ def verify(pid, k, wt):
     return meta
 
 
+def run_in_worktree(name, tier="quick", pid=None):
+    """Like run, but in a throw-away worktree of /repo (VERIF_REPO), so /repo itself is never touched and
+    several changes can be tried at the same time."""
+    d = os.path.join(SEEDED, name)
+    meta = json.load(open(os.path.join(d, "meta.json")))
+    pid = pid or meta["property"]
+    wt = "/tmp/seedrun-%s-%d" % (name, os.getpid())
+    rc, txt = sh("git worktree add -q --detach %s HEAD" % wt, "/repo")
+    if rc != 0:
+        print("cannot create worktree:", txt)
+        return 3
+    t0 = time.time()
+    try:
+        rc, txt = sh("git apply %s" % os.path.join(d, "patch.diff"), wt)
+        if rc != 0:
+            print("patch does not apply:", txt)
+            return 3
+        env = dict(ENV, VERIF_REPO=wt)
+        p = subprocess.run("./check %s %s" % (pid, tier), cwd=ROOT, env=env, shell=True, stdout=subprocess.PIPE, stderr=subprocess.STDOUT,
+                           text=True, timeout=4 * 3600)
+        rc, txt = p.returncode, p.stdout
+    finally:
+        sh("git worktree remove --force %s; git worktree prune" % wt, "/repo")
+    viol = [l for l in txt.splitlines() if l.startswith("VIOLATION")]
+    outcome = dict(exit=rc, detected=(rc == 1 and bool(viol)), wall_s=round(time.time() - t0, 1), seed=os.environ.get("VERIF_SEED", "1"),
+                   violation_line=viol[0] if viol else "", tail=txt[-1200:], in_worktree=True)
+    for l in viol:
+        rp = l.split("replay=")[-1].strip()
+        if os.path.exists(rp):
+            os.remove(rp)
+    meta.setdefault("checks", {})["%s:%s" % (pid, tier)] = outcome
+    json.dump(meta, open(os.path.join(d, "meta.json"), "w"), indent=1)
+    print("%-10s %s %-8s detected=%s exit=%s %.0fs (worktree)" % (name, pid, tier, outcome["detected"], rc, outcome["wall_s"]))
+    return 0
+
+
 def run(name, tier="quick", pid=None):
     d = os.path.join(SEEDED, name)
     meta = json.load(open(os.path.join(d, "meta.json")))
@@ -127,6 +163,8 @@ def main():
         print(m["name"], "verified" if m["verified"] else "REJECTED", [(s["step"][:40], s["as_expected"]) for s in m["steps"] if not s["as_expected"]])
     elif sys.argv[1] == "run":
         run(sys.argv[2], sys.argv[3] if len(sys.argv) > 3 else "quick")
+    elif sys.argv[1] == "wrun":
+        run_in_worktree(sys.argv[2], sys.argv[3] if len(sys.argv) > 3 else "quick")
     elif sys.argv[1] == "runall":
         tier = sys.argv[2] if len(sys.argv) > 2 else "quick"
         for name in sorted(os.listdir(SEEDED)):
